@@ -7,9 +7,38 @@ import (
 	"pgregory.net/rapid"
 )
 
-func pick[T any](rt *rapid.T, label string, vs ...T) T { return rapid.SampledFrom(vs).Draw(rt, label) }
-func intn(rt *rapid.T, label string, lo, hi int) int  { return rapid.IntRange(lo, hi).Draw(rt, label) }
-func chance(rt *rapid.T, label string, pct int) bool  { return rapid.IntRange(0, 99).Draw(rt, label) < pct }
+// rapid's integer generators (and SampledFrom) are deliberately biased towards
+// small values (geometric bit length): IntRange(0,99) < 4 holds ~30% of the
+// time. Choices between grammar alternatives must be uniform, so they are
+// built from unbiased coin flips (rapid.Bool); everything still shrinks
+// towards 0 = the first alternative.
+func uni(rt *rapid.T, label string, n int) int {
+	if n <= 1 {
+		return 0
+	}
+	bitsN := 6
+	for v := n - 1; v > 0; v >>= 1 {
+		bitsN++
+	}
+	bs := rapid.SliceOfN(rapid.Bool(), bitsN, bitsN).Draw(rt, label)
+	x := 0
+	for _, b := range bs {
+		x <<= 1
+		if b {
+			x |= 1
+		}
+	}
+	return x % n
+}
+
+func pick[T any](rt *rapid.T, label string, vs ...T) T { return vs[uni(rt, label, len(vs))] }
+func intn(rt *rapid.T, label string, lo, hi int) int {
+	if hi-lo >= 1<<24 {
+		return rapid.IntRange(lo, hi).Draw(rt, label)
+	}
+	return lo + uni(rt, label, hi-lo+1)
+}
+func chance(rt *rapid.T, label string, pct int) bool { return uni(rt, label, 100) < pct }
 
 var (
 	respOK     = []HF{{":status", "200"}, {"content-type", "application/grpc"}}
@@ -424,38 +453,35 @@ func genPlan(cfg genCfg) func(rt *rapid.T) Plan {
 			r.NoClose = chance(rt, "noclose", 10)
 			p.RPCs = append(p.RPCs, r)
 		}
-		if chance(rt, "peerss", 40) {
-			for i, n := 0, intn(rt, "npss", 1, 3); i < n; i++ {
-				id := pick(rt, "pssid", int64(3), 4, 4, 6, 1)
-				var v int64
-				switch id {
-				case 3:
-					v = pick(rt, "mcs", int64(0), 1, 2, 100)
-				case 4:
-					v = pick(rt, "iws", int64(0), 1, 100, 65535, 1<<20, 1<<31-1)
-				case 6:
-					v = pick(rt, "mhl", int64(0), 100, 8192)
-				default:
-					v = pick(rt, "hts", int64(0), 4096, 65536)
-				}
-				p.PeerSS = append(p.PeerSS, id, v)
-			}
+		// The server's preface SETTINGS. Values that keep the client from ever
+		// opening a stream (MAX_CONCURRENT_STREAMS 0, tiny MAX_HEADER_LIST_SIZE) are rare.
+		if chance(rt, "ss_mcs", 25) {
+			p.PeerSS = append(p.PeerSS, 3, pick(rt, "mcs", int64(1), 2, 100, 1, 2, 0))
+		}
+		if chance(rt, "ss_iws", 30) {
+			p.PeerSS = append(p.PeerSS, 4, pick(rt, "iws", int64(65535), 1<<20, 100, 1, 0, 1<<31-1))
+		}
+		if chance(rt, "ss_mhl", 8) {
+			p.PeerSS = append(p.PeerSS, 6, pick(rt, "mhl", int64(8192), 1<<20, 8192, 100, 0))
+		}
+		if chance(rt, "ss_hts", 10) {
+			p.PeerSS = append(p.PeerSS, 1, pick(rt, "hts", int64(0), 4096, 65536))
 		}
 		if chance(rt, "seg", 35) {
 			p.ReadSizes = pick(rt, "rs", []int{1}, []int{2, 7}, []int{9}, []int{5, 1, 100}, []int{16384, 3})
 		}
-		if chance(rt, "maxhdr", 25) {
-			p.MaxHdr = pick(rt, "mh", 64, 300, 4096, 20000)
+		if chance(rt, "maxhdr", 15) {
+			p.MaxHdr = pick(rt, "mh", 300, 4096, 20000)
 		}
 		p.Static = chance(rt, "static", 30)
-		if chance(rt, "ka", 15) {
+		if chance(rt, "ka", 8) {
 			p.KAms = pick(rt, "kams", 20, 200, 1000)
-			p.NoPingAck = chance(rt, "nopingack", 50)
+			p.NoPingAck = chance(rt, "nopingack", 30)
 		}
 		if cfg.conn {
 			p.MaxConns = intn(rt, "maxconns", 1, 3)
 			p.Retry = chance(rt, "retry", 30)
-			if chance(rt, "badfirst", 8) {
+			if chance(rt, "badfirst", 4) {
 				p.BadFirst = pick(rt, "bf", []byte{}, frame(ftPing, 0, 0, make([]byte, 8)), []byte("HTTP/1.1 400 Bad Request\r\n\r\n"), frame(ftSettings, 0, 0, []byte{0, 4, 0x80, 0, 0, 0}), frame(ftSettings, 0, 1, nil))
 			}
 		}
@@ -471,7 +497,7 @@ func genPlan(cfg genCfg) func(rt *rapid.T) Plan {
 			fatalOK := i >= fatalFrom
 			w := intn(rt, "w", 0, 99)
 			switch {
-			case started == 0 || (w < 8 && started < nrpc):
+			case started == 0 || (w < 12 && started < nrpc):
 				st = Step{K: kRPC, N: started}
 				started++
 			case w < 13:
